@@ -270,6 +270,8 @@ def sel_keys_all(n):
 
 
 def opp_keys(m):
+    # never an EMPTY opposite selection: rows/columns together with an empty selection on the other axis is the
+    # member Frame's business (Frame.iloc[[0, 2], 1:] on a one-column Frame raises ErrorInitFrame: C04), m >= 2 here
     ks = [None, 0, -1, [m - 1, 0] if m > 1 else [0], slice(1, None), np.array([i % 2 == 0 for i in range(m)], dtype=bool)]
     return ks
 
@@ -791,7 +793,7 @@ def store_cases(ctx):
 # ---------------------------------------------------------------------------- Quilt.from_frame: a Frame cut into chunks is that Frame
 def from_frame_cases(ctx):
     import static_frame as sf
-    for n, n_opp in ((5, 2),) if ctx.tier == 'quick' else ((5, 2), (4, 3), (6, 2), (3, 1)):
+    for n, n_opp in ((5, 2),) if ctx.tier == 'quick' else ((5, 2), (4, 3), (6, 2), (3, 2)):
         for axis in (0, 1):
             for retain in (False, True):
                 for chunk in range(1, n + 2):
